@@ -186,18 +186,28 @@ def plain_programs(report):
                 continue        # host 3.12+ syntax in the SOURCE
             if name.startswith("vs_long_") and quick:
                 continue
-            if f31 and (c15.has_field_string_literal(src) or c15.has_field_literal_needing_escape(src)):
-                # open finding F31 (applies to C01): on hosts before 3.12 a string literal inside an f-string
-                # field is refused or written in host-specific syntax
-                report.exclusions["fstring-field-string-literal"] = report.exclusions.get("fstring-field-string-literal", 0) + 1 \
-                    if isinstance(report.exclusions.get("fstring-field-string-literal", 0), int) else 1
-                continue
-            pcases.append((src, [env.ALL_CFGS[i % 8], env.ALL_CFGS[(i + 5) % 8]]))
-        hcases = pcases + hcases
+            cfgs = [env.ALL_CFGS[i % 8], env.ALL_CFGS[(i + 5) % 8]]
+            old_cfgs = cfgs
+            if f31:
+                # open finding F31 (applies to C01). A host runs its OWN output here, so only refusals matter:
+                # before 3.12 the stdlib unparser refuses fields whose literals need a backslash (and is not
+                # trusted with any literal in a field), the project's unparser refuses real escapes only
+                # (nested f-strings are fine there since fix 7395216)
+                drop_stdlib = c15.has_field_string_literal(src) or c15.has_field_literal_needing_escape(src)
+                drop_own = c15.has_field_literal_needing_escape(src, nested_counts=False)
+                old_cfgs = [c for c in cfgs if not (drop_stdlib if c[0] == "ast.unparse" else drop_own)]
+                if len(old_cfgs) != len(cfgs):
+                    n0 = report.exclusions.get("fstring-field-string-literal", 0)
+                    report.exclusions["fstring-field-string-literal"] = (n0 if isinstance(n0, int) else 0) + 1
+            pcases.append((src, cfgs, old_cfgs))
         report.extra["pool_programs_per_other_host"] = len(pcases)
         per_host = max(1, env.NPROC // len(others))
-        hitems = [(h, hcases[j::per_host], {}, "[interaction] program behaves differently after conversion")
-                  for h in others for j in range(per_host)]
+        hitems = []
+        for h in others:
+            old = tuple(int(x) for x in h.split(".")) < (3, 12)
+            mine = [(src, oc if old else c) for (src, c, oc) in pcases if (oc if old else c)] + hcases
+            hitems += [(h, mine[j::per_host], {}, "[interaction] program behaves differently after conversion")
+                       for j in range(per_host)]
         for part in env.pmap(hosts.host_shard, hitems):
             report.absorb(part)
         report.extra["interaction_programs_per_other_host"] = len(hcases)
